@@ -615,6 +615,9 @@ Definition make_array (s : store) (base : cid) (t : cid) (kw : kwargs) : res (st
   | Some rb, Some rt =>
     match c_kind rb, c_fields rb, c_orig rb with
     | KArray, [], None =>
+      (* _get_spyne_type refuses an Array class that has no member yet: "Invalid Array definition" *)
+      if match c_kind rt, c_fields rt with KArray, [_] => false | KArray, _ => true | _, _ => false end
+      then RExn OtherExn else
       dor (s1, a) <- customize_plain s base kw;
       match get_tname s1 t with
       | None => RBad 4
